@@ -132,7 +132,7 @@ def check(index, ctx):
     run = get("mtl_backward", tasks=False, shared=False, chunk=True)
     ov_fn = None
     for res in _pipe.main_paths(run)[:1]:
-        ov = [e for e in _pipe.evs(res, "set_op") if e["op"] == "BitAnd"]
+        ov = [e for e in _pipe.evs(res, "set_op") if e["op"] in ("BitAnd", "In")]
         first = min([e["seq"] for e in _pipe.evs(res, "autograd", "grad_write")] or [10 ** 9])
         ok = bool(ov) and {tuple(ov[0]["left"]), tuple(ov[0]["right"])} == {("leaves(losses[i]\\features)",), ("leaves(features)",)} and ov[0]["seq"] < first
         ctx.require(ok, "R3", "mtl_backward: overlap check on the defaulted collections", "intersection of the two default sets before the pipeline runs",
@@ -140,6 +140,7 @@ def check(index, ctx):
         if ov:
             ov_fn = ov[0]["function"]
     rej = [r for r in run.raising() if r.exc.exc_name == "ValueError" and _pipe.overlap_rejection(r)]
+    rej = rej or [r for r in run.results if _pipe.loop_overlap_rejection(r)]
     ctx.require(bool(rej), "R3", "mtl_backward: overlapping default sets are rejected", "ValueError path", "no ValueError path for overlapping default sets", "")
     if ov_fn:
         fi = index.functions.get(ov_fn)
